@@ -180,8 +180,11 @@ Definition max_nibs (keys : list key) : nat := fold_left (fun m k => Nat.max m (
 Definition empty_trie : trie :=
   {| t_root := None; t_innerpfx := false; t_leafpfx := false; t_leaves := None |}.
 
-(* newSlim + NewSlimTrie, values already encoded *)
-Definition build (o : opts) (keys : list key) (vals : option (list (list byte))) : res trie :=
+(* newSlim + NewSlimTrie, values already encoded.  [big0] is the initial value of
+   the creator's isBig flag: true in newSlim; the conversion of the three-array
+   legacy layouts (before000510ToNewChildrenArray) runs the same creator with
+   isBig = false, i.e. it never makes 257-bit nodes. *)
+Definition build_gen (big0 : bool) (o : opts) (keys : list key) (vals : option (list (list byte))) : res trie :=
   match keys with
   | [] => Ok empty_trie
   | _ =>
@@ -189,7 +192,7 @@ Definition build (o : opts) (keys : list key) (vals : option (list (list byte)))
       | Some i => Err (EOutOfOrder i)
       | None =>
           let ents := mk_ents 0 keys (to_keep o (length keys) vals) in
-          do (forest, lidx) <- build_levels (max_nibs keys + 3) o true 0 0
+          do (forest, lidx) <- build_levels (max_nibs keys + 3) o big0 0 0
                                  [{| s_ents := ents; s_from := 0 |}];
           match forest with
           | [r] => Ok {| t_root := Some r; t_innerpfx := o_inner o; t_leafpfx := o_leaf o;
@@ -198,6 +201,8 @@ Definition build (o : opts) (keys : list key) (vals : option (list (list byte)))
           end
       end
   end.
+
+Definition build : opts -> list key -> option (list (list byte)) -> res trie := build_gen true.
 
 (* ---- point queries (trie/slimtrie_query.go) ---- *)
 
